@@ -125,7 +125,10 @@ def make(shape, tagged=False):
       if isinstance(o, fdl.Buildable):
         names = _named(o)
         if names:
+          # even nodes carry a tag and its subclass on one argument
           fdl.add_tag(o, names[0], N.TagA if i % 2 else N.TagB)
+          if i % 2 == 0:
+            fdl.add_tag(o, names[0], N.TagA)
           fdl.add_tag(o, names[-1], N.TagC)
   return objs[-1]
 
@@ -354,6 +357,8 @@ def edit_ops(cfg):
         g(c), _retarget)))
     ops.append((f'b{bi}.add-tag', lambda c, g=get: _do(
         g(c), lambda n: fdl.add_tag(n, _named(n)[0], N.TagC))))
+    ops.append((f'b{bi}.remove-base-tag', lambda c, g=get: _do(
+        g(c), lambda n: fdl.remove_tag(n, _named(n)[0], N.TagA))))
     ops.append((f'b{bi}.clear-tags', lambda c, g=get: _do(
         g(c), lambda n: fdl.clear_tags(n, _named(n)[0]))))
     ops.append((f'b{bi}.alias-y-to-x', lambda c, g=get: _do(
